@@ -9,7 +9,7 @@ from ..model import hdr_gen
 FIX = os.path.join(build.VERIF, "fixtures")
 PARSER_INC = os.path.join(build.REPO, "parser-inc")
 
-BACKENDS = ["-c", "-python", "-python-native"]
+BACKENDS = ["-c", "-python", "-python-native", "-python-obj"]
 
 
 def read_fixture(rel):
